@@ -64,3 +64,10 @@ claimed["C01"] = (
     "equality is typed deep equality with NaN=NaN, -0=0, nil slice/map = empty; struct-mapped optional properties on non-pointer fields are made required or treat-empty-as-default by the generator (a Go struct cannot represent their absence); one-of members sharing a Go struct type are not generated (the SDK cannot tell them apart when serializing)",
     "DESIGN.md §3 C01",
 )
+claimed["C02"] = (
+    "exploration",
+    "runtime differential against an independent reference interpreter of the declared constraints, over an enumerated boundary x representation space for scalars and generated containers; native-form mutation checks for Validate/Serialize",
+    "Every combination of absent/present bounds (incl. +-2^63, +-Inf, -0, min>max), units and patterns for int/float/string/bool/pattern/enum schemas is run against its boundary set in every Go representation (enumerated: ~20k cases, in both tiers); generated lists/maps/any add valid inputs in random representations, CBOR images, perturbed and hostile leaves and exact size boundaries. The reference (internal/ref, written from the property text, three-valued) says must-accept(value) / must-reject / unspecified; the SDK's Unserialize must agree and return exactly the denoted value; on unspecified conversions an accepted result must still satisfy every constraint. Validate and Serialize are checked on values in native form: accepted exactly when the reference's constraint check passes, and every accepted native is mutated to break one constraint and must then be rejected by both.",
+    "trusts the reference interpreter (self-consistent with C01 chains and hand-checked tables); string length = bytes; conversions the statement does not name are unspecified",
+    "DESIGN.md §3 C02, App. A",
+)
